@@ -97,6 +97,10 @@ def payload_for(kind: str, p: str) -> str:
     """The payload as planted for this kind (characters the position cannot hold are dropped)."""
     if kind == "modname":
         return fname(p)
+    if kind.startswith(("field.", "xref.")) or kind in ("doc.google", "doc.numpy"):
+        # form feed, U+2028 ... are line / word separators for the field and section parsers: the pieces would be
+        # parsed as different things (identifier or not) in the canary and in its twin
+        p = "".join(c for c in p if not c.isspace())
     if kind.startswith("xref."):
         return nolt(p)              # '<' separates label and target in both markups
     if kind.startswith("doctest."):
